@@ -150,7 +150,8 @@ def classify_item(cfg, sec, mn, before, after):
     if len(ub) >= 2 and ((ub[0] == "[" and ub[-1] == "]") or (ub[0] == "(" and ub[-1] == ")")) and ua == ub[1:-1] and (vb, db) == (va, da):
         return "nested-brackets-unit"
     head = ub.split(" ")[0]
-    if head.isdigit() and ub.isascii() and db == da:
+    # exactly the recorded shape: the unit (already 'digits 0') stays, only the value goes from '' to the normalised 0
+    if head.isdigit() and ub.isascii() and ub == ua and db == da and vb == ("str", "") and va == ("num", 0.0):
         return "numeric-unit-single-blank"
     return "other:" + sec
 
